@@ -683,7 +683,11 @@ def replay(ck, rp):
         os.makedirs(td, exist_ok=True)
         cid, src, trunc, edits = r["case"][:4]
         if not os.path.exists(src):
+            # synthetic inputs live under the build directory of the tree they were made for: make them again
             synth_files(tmpdir())
+            cand = os.path.join(tmpdir(), "synth", os.path.basename(src))
+            if os.path.exists(cand):
+                src = cand
         cf = os.path.join(td, "case.txt")
         open(cf, "w").write("case\t%s\t%s\t%d\t%d%s\n" % (cid, src, trunc, len(edits), "".join("\t%d:%s" % (o, h) for o, h in edits)))
         rc, out, err = vlib.run_exe(exe, [str(rp.get("seed", 1)), td, cf, "3"], env={"ASAN_OPTIONS": ASAN_DET})
